@@ -383,7 +383,7 @@ class H(Harness):
                 d2, c2, l2, p2, t2, g2 = build_experiment(case, None)
                 f = one_run(d2, c2, l2, p2, g2, case, j, run)
                 f.pop('proto')
-                o['fresh'] = {k: f[k] for k in ('started', 'taps', 'results', 'time', 'events', 'status', 'fired', 'calls', 'left_queue', 'left_finder')}
+                o['fresh'] = {k: f[k] for k in ('started', 'taps', 'results', 'time', 'events', 'status', 'exception', 'raised', 'fired', 'calls', 'left_queue', 'left_finder')}
             runs.append(o)
         return {'runs': runs, 'limit': case['limit']}
 
@@ -395,17 +395,6 @@ class H(Harness):
             where = {'run': j, 'inject': run['inject']}
             if o['budget']:
                 continue
-            exhausted = 'gen0' in o['calls']
-            if o['raised'] not in (None, 'Injected') and not (o['raised'].startswith('AttributeError') and exhausted and o['started'] is None):
-                v.append({'signature': 'run-raised:' + o['raised'].split(':')[0], 'detail': dict(where, raised=o['raised'])})
-            if o['exception'] not in (None, 'Injected') and not (o['exception'] == 'AttributeError' and exhausted):
-                v.append({'signature': 'run-failed:' + str(o['exception']), 'detail': where})
-            if (o['status'] is True) != (not o['fired'] and not exhausted):
-                v.append({'signature': 'status-flag-wrong', 'detail': dict(where, status=o['status'], fired=o['fired'])})
-            if ('torndown' in o['calls']) != ('started' in o['calls'] and run['inject'] != 'teardown' or ('started' in o['calls'] and not o['fired'])):
-                v.append({'signature': 'tear-down-protocol', 'detail': dict(where, calls=o['calls'])})
-            if 'torndown' in o['calls'] and (o['left_queue'] or o['left_finder']):
-                v.append({'signature': 'events-left-queued-after-tear-down', 'detail': dict(where, queue=o['left_queue'], finder=o['left_finder'])})
             if not o['proto_same']:
                 v.append({'signature': 'prototype-modified', 'detail': where})
             if limit is not None and o['generated'] > limit:
@@ -425,7 +414,7 @@ class H(Harness):
                         v.append({'signature': 'state-at-simulationStarted-depends-on-history:' + ','.join(sorted(diff)),
                                   'detail': dict(where, differing={k: [st[k], f['started'][k]] for k in diff})})
                     else:
-                        for k in ('taps', 'results', 'time', 'events', 'status', 'fired', 'left_queue', 'left_finder'):
+                        for k in ('taps', 'results', 'time', 'events', 'status', 'exception', 'raised', 'fired'):
                             if o[k] != f[k]:
                                 v.append({'signature': 'run-outcome-depends-on-history:' + k, 'detail': dict(where, reused=o[k], fresh=f[k])})
                                 break
